@@ -15,6 +15,7 @@ import (
 	"flag"
 	"fmt"
 	"os"
+	"os/exec"
 	"reflect"
 	"runtime"
 	"runtime/pprof"
@@ -824,10 +825,16 @@ func repeat(u unit) *result {
 			continue
 		}
 		snap := stateOf(&f0)
+		// the reference result of every operation comes from a FRESH PROCESS that does nothing else: state that survives
+		// from one call to the next inside a process (a lazily filled table, a cached option) cannot leak into it
 		solo := map[string]obs{}
 		for _, n := range u.Ops {
-			f, _ := sc.load()
-			solo[n] = callSafe(opByName(n), &f, sc)
+			o, err := soloFresh(u, path, n)
+			if err != nil {
+				res.Error = err.Error()
+				return res
+			}
+			solo[n] = o
 		}
 		var seq []string
 		var rec func()
@@ -880,6 +887,43 @@ func repeat(u unit) *result {
 		rec()
 	}
 	return res
+}
+
+// soloFresh runs one operation on one schema in a new process of this same binary and returns what it observed.
+func soloFresh(u unit, path, op string) (obs, error) {
+	su := unit{Mode: "solo1", Schemas: []string{path}, Ops: []string{op}, Sites: u.Sites}
+	b, _ := json.Marshal(su)
+	fh, err := os.CreateTemp("", "c14-solo-*.json")
+	if err != nil {
+		return obs{}, err
+	}
+	defer os.Remove(fh.Name())
+	fh.Write(b)
+	fh.Close()
+	cmd := exec.Command(os.Args[0], "-unit", fh.Name())
+	var stdout, stderr bytes.Buffer
+	cmd.Stdout, cmd.Stderr = &stdout, &stderr
+	if err := cmd.Run(); err != nil {
+		return obs{}, fmt.Errorf("fresh-process run of %s on %s failed: %v: %s", op, path, err, short(stderr.String(), 500))
+	}
+	var o obs
+	if err := json.Unmarshal(stdout.Bytes(), &o); err != nil {
+		return obs{}, fmt.Errorf("fresh-process run of %s: unreadable result: %v", op, err)
+	}
+	return o, nil
+}
+
+// solo1 is the body of that fresh process.
+func solo1(u unit) {
+	setMapIter(1)
+	sc := loadSchema(u.Schemas[0])
+	f, err := sc.load()
+	if err != nil {
+		fatal("solo1: %v", err)
+	}
+	o := callSafe(opByName(u.Ops[0]), &f, sc)
+	out, _ := json.Marshal(o)
+	os.Stdout.Write(out)
 }
 
 // ---------------------------------------------------------------- free-running race pass
@@ -1025,6 +1069,9 @@ func main() {
 	t0 := time.Now()
 	var res *result
 	switch u.Mode {
+	case "solo1":
+		solo1(u)
+		return
 	case "probe":
 		res = probe(u)
 	case "explore":
